@@ -252,11 +252,17 @@ func check(tt *testing.T, c Case) (pbt.Info, error) {
 	if c.Kind == prog.Bidi {
 		cp.Ops = []prog.COp{{Op: "send", Msg: &prog.Msg{N: 1}}, {Op: "send", Msg: &prog.Msg{N: 2}}, {Op: "closereq"}, {Op: "recvall"}, {Op: "closeresp"}}
 	}
-	ctx, cancel := context.WithCancel(context.Background())
-	defer cancel()
-	res := prog.RunClientWith(ctx, cl, c.Kind, cp, cancel)
-	if ex := mem.Last(); ex != nil {
-		<-ex.HandlerDone()
+	var res *prog.CResult
+	if berr := pbt.Bubble(tt, func() error {
+		ctx, cancel := context.WithCancel(context.Background())
+		defer cancel()
+		res = prog.RunClientWith(ctx, cl, c.Kind, cp, cancel)
+		if ex := mem.Last(); ex != nil {
+			<-ex.HandlerDone()
+		}
+		return nil
+	}); berr != nil {
+		return info, berr
 	}
 	if res.Err != nil {
 		return info, fmt.Errorf("call failed: %v", res.Err)
